@@ -478,6 +478,22 @@ example {α : Type} [Num α] {ρ : Type} (h : List α × ρ → α) (c : α) (d 
     rejSample2 h 1 c [d] cur = ⟨true, (d.baseInf, d.baseRest), 1, [], false, false⟩ :=
   PhsNonvac.rejSample2_one_success h c d cur hd
 
+
+/-- **`phs_sample_history_independent`** [AF]: `RNG::uniformProlateHyperspheroid` as coded (model `uniformPhs`) takes
+the ball's dimension from the PHS (`dir.length = p.dim`: one `uniformNormalVector` of exactly that size plus one
+uniform draw for the radius `pow(u, 1/dim)`), its result is the transform of that ball point, and it depends on
+nothing but this call's own draws: whatever PHSs of whatever dimensions were sampled before, with whatever draws,
+the next call returns the same point.  (The lock-step runs several problems of descending and mixed dimension in one
+process against this model; a scratch buffer that keeps an earlier, larger dimension makes the real call consume
+other draws and return another point.) -/
+theorem phs_sample_history_independent {α : Type} [Num α] (root : Nat → α → α)
+    (hist : List (Phs α × List α × α)) (p : Phs α) (dir : List α) (u : α) :
+    (uniformPhsRun root (hist ++ [(p, dir, u)])).getLast? = some (uniformPhs root p dir u) ∧
+    (∀ x, uniformPhs root p dir u = some x →
+      dir.length = p.dim ∧ (uniformInBall root (Num.ofNat 1) dir u).length = p.dim ∧
+      p.transform (uniformInBall root (Num.ofNat 1) dir u) = some x) :=
+  ⟨PhsState.uniformPhsRun_last root hist p dir u, fun x h => PhsState.uniformPhs_some root p dir u x h⟩
+
 /-! ## Non-vacuity of the geometric hypotheses -/
 
 /-- a concrete 2-D instance satisfying `Setup`: foci (∓3, 0), identity rotation -/
